@@ -4,6 +4,9 @@ import json, os, subprocess, sys
 ROOT = os.path.dirname(os.path.dirname(os.path.abspath(__file__)))
 
 CLAIMED = {
+ "C04": ("exploration", "exhaustive enumeration of Galois elements / rotation steps at small N + property-based testing, against index-arithmetic automorphism and slot-permutation oracles",
+         "Generated-input search: every odd element g<2N and every step (direct key and NAF composition from the default key set) at N in {4,8,16,32} for the three schemes at first and last level, plus random parameter sets, key-set variants (from elements, from steps, default, seed-compressed then expanded), column swap / conjugation, secret-key switching and plaintext automorphisms in both representations. The decrypted polynomial must be m(X^g) (exact in BFV/BGV, integer coefficients within worst-case noise in CKKS) and decoded slots must be the documented permutation / conjugation.",
+         "Trusted: refmath index arithmetic, own CRT, noise model DESIGN.md §4.", "DESIGN.md §6 C04"),
  "C11": ("exploration", "property-based testing (proptest) + exhaustive unit-vector / rotation-step enumeration against naive evaluation at the roots psi^(+-3^i)",
          "Generated-input search: the encoded polynomial of every unit vector (exhaustive N<=128, thorough 512, three plain-modulus sizes) and of random / extreme / short vectors must evaluate to the slot values at the powers +-3^i of the independently computed minimal primitive 2N-th root modulo t; decode/encode are mutually inverse; sums and naive negacyclic products decode to slot-wise sums and products; the automorphism the library associates with every rotation step (all steps for N<=64) must rotate both rows left by that step and step 0 must swap the rows; coefficient encoding reduces modulo t.",
          "Trusted: u128 arithmetic, refmath minimal-root search, naive convolution.", "DESIGN.md §6 C11"),
